@@ -126,3 +126,10 @@ CHECKS["C11"] = dict(
     text="For two paths with symbolic type (recognised / unrecognised / uncommentable / binary), symbolic pre-existing .license sibling, symbolic outcome of header construction per path (ok, CommentCreateError, MissingReuseInfoError), --skip-existing, --no-replace, each style option and line-handling option, CrossHair confirms over all paths that a failing path and its .license sibling are unchanged (none created), every other path is processed, the exit status is 1 iff some path failed, and a usage error leaves the model untouched.",
     note="Stubs: Path/open model, is_binary by extension, header builder replaced by the fault point, click's option parser. Known finding (replayed through the real CLI on a temporary project each run): the .license sibling is touch()ed before the header is built and is left behind when building fails.",
 )
+
+CHECKS["C19"] = dict(
+    engine="XH",
+    technique="symbolic execution (CrossHair + z3) of the real download command body and put_license_in_file over a file-system model with a per-identifier network stub",
+    text="For 1-2 requested identifiers (valid, with '+', deprecated, unknown, LicenseRef- with and without '+'), symbolic network outcome per identifier, symbolic pre-state of LICENSES/ (absent / present, target pre-existing or not), --output, four --source forms and two invocation directories, CrossHair confirms over all paths that no pre-existing entry changes, new entries appear only at LICENSES/<id>.txt or --output, nothing is left behind for a failed identifier (the model makes a file exist from the moment it is opened for writing), the remaining identifiers are still handled, LicenseRef- never uses the network, and the exit status is 1 iff something failed.",
+    note="Stubs: Path / open / copyfile model, download_license replaced by its documented contract (text or URLError), click.echo. Outside: real urllib behaviour, --all (its input is C06's subject), more than two identifiers.",
+)
